@@ -99,6 +99,28 @@ func LoopSucc(keep, seed int) []Pat {
 	return out
 }
 
+// SuccLoop is the mirror image of LoopSucc, "head x predecessor x single-character loop": what a
+// right-to-left program sees as loop-then-successor (the reducer walks the reversed concatenation), and for
+// left-to-right programs the "item / string followed by a loop of its last character" coalescing rules.
+func SuccLoop(keep, seed int) []Pat {
+	loops := []string{`a*`, `a+`, `a*?`, `a+?`, `[^a]*`, `[^a]+`, `[^a]*?`, `[ab]*`, `[ab]+?`, `\w*`, `.*`, `.*?`, `a{1,2}`, `[^a]{0,2}`, `\d+`, `(?:ab)*`}
+	preds := []string{`a`, `b`, `[^a]`, `[^b]`, `[ab]`, `[bc]`, `ab`, `ba`, `aa`, `ca`, `^`, `\b`, `a?`, `b?`, `a*`, `b*`, `[^a]?`, `[ab]?`, `a?b`, `b?a`, `(?:a|b)`, `\n?`, `(?<=a)`, `(?<!a)`, `ba{0,2}`, `\d`, `\w`, `(a)`, `(?:a|[^a])`}
+	heads := []string{``, `b`, `c`, `^`, `\w`}
+	var out []Pat
+	for _, l := range loops {
+		for _, s := range preds {
+			for _, h := range heads {
+				p := h + s + l
+				if keep > 1 && hashStr(p, seed)%uint64(keep) != 0 {
+					continue
+				}
+				out = append(out, FromText(p, 0, "shape:succloop"))
+			}
+		}
+	}
+	return out
+}
+
 // AltPrefix is the systematic product for alternation prefix factoring: two or
 // three branches that start with the same / a similar literal, set or loop.
 func AltPrefix(keep, seed int) []Pat {
